@@ -7,6 +7,18 @@ CHECKS = {
         "technique": "Rocq proof (round-trip theorem) + model/implementation correspondence",
         "ref": "DESIGN.md 5 C12",
     },
+    "C14": {
+        "text": "Kernel-checked for all schedules of the executable L3 model (Close, any number of API callers, rotation goroutine; atomic steps = the code's atomic actions and hook points): calls started after the closed flag is set return ErrClosed and a second Close is a no-op (C14_after_close), writeMu mutual exclusion. For states satisfying the protocol invariant Inv1: no step panics (C14_racing_calls_partial). The model is tied to wal.go/state.go by forcing the same schedules on the real WAL through the verif hook points (every method x window x Close stage, pending rotation, random) and comparing outcomes; model-independent oracles: recover(), deadlock watchdog, ErrClosed after Close, rotation goroutine exit, handle accounting, reopen. Deadlock freedom, rotator exit, handle release and 'only result or ErrClosed' are NOT proved (partial): they are decided by those oracles.",
+        "note": "Partial proof: see coq/Props/C14.v header. Found and drove the repair of 4 defects (74e5b3c, b259a49, 52ced73, d688ba5).",
+        "technique": "Rocq proof (schedule-quantified invariants) + forced-schedule model/implementation correspondence + oracles",
+        "ref": "DESIGN.md 5 C14, 10 conc",
+    },
+    "C06": {
+        "text": "Kernel-checked for all schedules of the same L3 model (writer: append with offsets publish / write / fsync / commitIdx store, rotation, head and tail truncation with re-append; any number of readers): an entry becomes visible only after its batch is synced and readers read below the synced prefix (C06_visible_only_durable); model-level absence of read/write conflicts on file contents (C06_no_conflict_partial, partial by nature). Linearizability and use-after-close freedom are NOT proved: forced schedules around the protocol windows are compared with the extracted model, and every read of every forced and free-running (8 readers, 1 writer) history is checked read-by-read against the writer's version log; the stress also runs under the race detector in the thorough tier.",
+        "note": "Partial proof: see coq/Props/C06.v header.",
+        "technique": "Rocq proof (schedule-quantified invariants) + forced-schedule correspondence + history checker + race detector",
+        "ref": "DESIGN.md 5 C06, 10 conc",
+    },
 }
 
 _pending = "check not built yet in this round (machinery under construction; see DESIGN.md section 10)"
